@@ -987,6 +987,93 @@ func c07ArrLit(r *rand.Rand, elems []interface{}) *c07Expr {
 	return &c07Expr{"[" + strings.Join(parts, ", ") + "]", func(*c07Interp) (interface{}, c07Sig) { return cp, c07None }}
 }
 
+// c07ECase is one case of a match EXPRESSION: literal patterns or an identifier
+// pattern; the body is an expression (its value is the value of the match) or a
+// block (the match is null when the block completes; a jump in it passes through).
+type c07ECase struct {
+	lits  []int
+	bind  string
+	block *c07Stmt
+	val   *c07Expr
+}
+
+func c07MatchE(subj *c07Expr, cases []c07ECase) *c07Expr {
+	var lines []string
+	lines = append(lines, "match ("+subj.text+") {")
+	interp := subj.eval != nil
+	for i, c := range cases {
+		pat := c.bind
+		if c.lits != nil {
+			ps := make([]string, len(c.lits))
+			for j, l := range c.lits {
+				ps[j] = fmt.Sprint(l)
+			}
+			pat = strings.Join(ps, ", ")
+		}
+		if c.block != nil {
+			lines = append(lines, "    "+pat+" => {")
+			for _, x := range c.block.list {
+				c07Render(&lines, x, "      ")
+			}
+			lines = append(lines, "    }")
+		} else {
+			if c.val.eval == nil {
+				interp = false
+			}
+			sep := ","
+			if i == len(cases)-1 {
+				sep = ""
+			}
+			lines = append(lines, "    "+pat+" => "+c.val.text+sep)
+		}
+	}
+	lines = append(lines, "  }")
+	text := strings.Join(lines, "\n")
+	if !interp {
+		return &c07Expr{text, nil}
+	}
+	return &c07Expr{text, func(in *c07Interp) (interface{}, c07Sig) {
+		v, sig := subj.eval(in)
+		if sig != c07None {
+			return nil, sig
+		}
+		for _, c := range cases {
+			hit := c.lits == nil
+			for _, l := range c.lits {
+				cmp, ok := c07Cmp(v, float64(l))
+				if !ok {
+					if _, u := v.(c07Unset); !u {
+						return nil, c07Fail
+					}
+					continue
+				}
+				if cmp == 0 {
+					hit = true
+					break
+				}
+			}
+			if !hit {
+				continue
+			}
+			frame := map[string]*c07Cell{}
+			if c.lits == nil {
+				frame[c.bind] = &c07Cell{v}
+			}
+			in.frames = append(in.frames, frame)
+			defer func() { in.frames = in.frames[:len(in.frames)-1] }()
+			in.cover["match_expr"]++
+			if c.block != nil {
+				if sig := in.exec(c.block); sig != c07None {
+					return nil, sig
+				}
+				return nil, c07None
+			}
+			return c.val.eval(in)
+		}
+		return nil, c07None
+	}}
+}
+
 // ---------------------------------------------------------------- generator
 
 const c07Budget = 160 // static worst-case iteration product
@@ -1140,7 +1227,11 @@ func (g *c07Gen) callExpr(c c07Ctx) *c07Expr {
 	if len(ok) == 0 {
 		return nil
 	}
-	f := pick(g.r, ok)
+	return g.callOf(c, pick(g.r, ok))
+}
+
+// callOf: a call of f with arguments fitting its parameter kinds.
+func (g *c07Gen) callOf(c c07Ctx, f *c07Func) *c07Expr {
 	if f.next {
 		g.mayNext = true
 	}
@@ -1460,6 +1551,131 @@ func (g *c07Gen) exoticStmt(c c07Ctx) *c07Stmt {
 	return &c07Stmt{kind: "raw", raw: pick(g.r, raws)}
 }
 
+// jumpOf: a jump statement of one of the given kinds (counted like the ones of jump).
+func (g *c07Gen) jumpOf(c c07Ctx, kinds ...string) *c07Stmt {
+	k := pick(g.r, kinds)
+	g.jumps[k]++
+	if k == "next" {
+		g.mayNext = true
+	}
+	s := &c07Stmt{kind: k}
+	if k == "return" && chance(g.r, 0.7) {
+		s.cond = g.intExpr(c, 0)
+	}
+	return s
+}
+
+// guarded: `if (cond) jump` (sometimes the bare jump)
+func (g *c07Gen) guarded(c c07Ctx, kinds ...string) *c07Stmt {
+	j := g.jumpOf(c, kinds...)
+	if chance(g.r, 0.15) {
+		return j
+	}
+	return &c07Stmt{kind: "if", cond: g.condExpr(c, 1), body: j, style: g.r.Intn(4)}
+}
+
+// guardFunction: a function made to be called from a rule's PATTERN: it traces,
+// leaves by next / exit / return under a condition on its argument, and returns a
+// truth value.
+func (g *c07Gen) guardFunction(idx int) *c07Func {
+	f := &c07Func{name: fmt.Sprintf("f%d", idx), cost: 1}
+	p := g.fresh("p")
+	f.params, f.kinds = []string{p}, []string{"int"}
+	c := c07Ctx{inFunc: true, mult: 1, fnIdx: idx, cost: &f.cost, intVars: []string{p}}
+	g.mayNext = false
+	b := &c07Stmt{kind: "block"}
+	b.list = append(b.list, g.trace(c), g.guarded(c, "next", "next", "next", "exit", "return"), g.trace(c))
+	if chance(g.r, 0.4) {
+		if e := g.callExpr(c); e != nil && chance(g.r, 0.5) {
+			b.list = append(b.list, &c07Stmt{kind: "assign", v1: "res", cond: e}, g.trace(c)) // next through a second call level
+		} else {
+			b.list = append(b.list, g.guarded(c, "next", "exit", "return", "return"), g.trace(c))
+		}
+	}
+	g.jumps["return"]++
+	b.list = append(b.list, &c07Stmt{kind: "return", cond: g.condExpr(c, 1)})
+	f.body = b
+	f.next = g.mayNext
+	return f
+}
+
+// matchPattern: a match expression used as a rule pattern; block bodies trace and
+// leave by next / exit, expression bodies give the truth value.
+func (g *c07Gen) matchPattern(c c07Ctx) *c07Expr {
+	subj := pick(g.r, []*c07Expr{c07Field("n"), c07Field("m"), c07Bin("%", c07Field("n"), c07Lit(3)), c07Len(c07Field("arr")), c07Bin("+", c07Field("n"), c07Field("m"))})
+	if chance(g.r, 0.15) {
+		if e := g.callExpr(c); e != nil {
+			subj = e
+		}
+	}
+	n := 1 + g.r.Intn(3)
+	var cases []c07ECase
+	for i := 0; i < n; i++ {
+		cs := c07ECase{}
+		c2 := c
+		c2.inMatch = true
+		if chance(g.r, 0.35) || (i == n-1 && chance(g.r, 0.5)) {
+			cs.bind = g.fresh("b")
+			c2.intVars = append(append([]string{}, c.intVars...), cs.bind)
+		} else {
+			for j, m := 0, 1+g.r.Intn(3); j < m; j++ {
+				cs.lits = append(cs.lits, g.r.Intn(5))
+			}
+		}
+		switch k := g.r.Intn(10); {
+		case k < 5:
+			b := &c07Stmt{kind: "block"}
+			b.list = append(b.list, g.trace(c2))
+			if chance(g.r, 0.85) {
+				b.list = append(b.list, g.guarded(c2, "next", "next", "next", "exit"), g.trace(c2))
+			}
+			cs.block = b
+		case k < 8:
+			cs.val = g.condExpr(c2, 1)
+		default:
+			cs.val = g.intExpr(c2, 0)
+		}
+		cases = append(cases, cs)
+	}
+	return c07MatchE(subj, cases)
+}
+
+// pattern: the pattern of a main rule. A third of them can execute next / exit while
+// they are evaluated (a call of a function that jumps, a match expression whose block
+// bodies jump), bare or inside !, &&, ||, a comparison.
+func (g *c07Gen) pattern() *c07Expr {
+	cost := 1
+	c := c07Ctx{inRecord: true, mult: 1, fnIdx: len(g.funcs), cost: &cost}
+	var e *c07Expr
+	switch k := g.r.Intn(10); {
+	case k < 3:
+		var js []*c07Func
+		for _, f := range g.funcs {
+			if f.next && f.cost <= c07Budget {
+				js = append(js, f)
+			}
+		}
+		if len(js) > 0 {
+			e = g.callOf(c, pick(g.r, js))
+		}
+	case k < 5:
+		e = g.matchPattern(c)
+	}
+	if e == nil {
+		return g.condExpr(c, 1)
+	}
+	g.jumps["pattern-that-may-jump"]++
+	switch g.r.Intn(8) {
+	case 0:
+		return c07Not(e)
+	case 1:
+		return c07Bin(pick(g.r, []string{"&&", "||"}), g.condExpr(c, 2), e)
+	case 2:
+		return c07Bin(pick(g.r, []string{"&&", "||"}), e, g.condExpr(c, 2))
+	}
+	return e
+}
+
 func (g *c07Gen) function(idx int) *c07Func {
 	f := &c07Func{name: fmt.Sprintf("f%d", idx), cost: 1}
 	n := g.r.Intn(4)
@@ -1562,6 +1778,11 @@ func c07Program(r *rand.Rand, exotic bool) (*c07Prog, *c07Gen, []byte) {
 		g.funcs = append(g.funcs, f)
 		p.funcs = append(p.funcs, f)
 	}
+	if chance(r, 0.45) {
+		f := g.guardFunction(len(g.funcs))
+		g.funcs = append(g.funcs, f)
+		p.funcs = append(p.funcs, f)
+	}
 	cost := 1
 	mk := func(kind string, inRecord bool, size int) c07Rule {
 		cost = 1
@@ -1575,12 +1796,18 @@ func c07Program(r *rand.Rand, exotic bool) (*c07Prog, *c07Gen, []byte) {
 	if chance(r, 0.3) {
 		p.rules = append(p.rules, mk("BEGIN", false, 1))
 	}
-	p.rules = append(p.rules, mk("main", true, 2))
-	if chance(r, 0.5) {
-		rl := mk("main", true, 1)
-		if chance(r, 0.7) {
-			cost = 1
-			rl.pat = g.condExpr(c07Ctx{inRecord: true, mult: 1, fnIdx: len(g.funcs), cost: &cost}, 1)
+	// 1-4 main rules; any of them may have a pattern, so that a pattern that executes
+	// next / exit is followed by 0-3 further rules (with and without patterns)
+	nmain := pick(r, []int{1, 2, 2, 2, 3, 3, 4})
+	big := r.Intn(nmain)
+	for j := 0; j < nmain; j++ {
+		size := 1
+		if j == big {
+			size = 2
+		}
+		rl := mk("main", true, size)
+		if chance(r, map[bool]float64{true: 0.35, false: 0.65}[j == 0]) {
+			rl.pat = g.pattern()
 		}
 		p.rules = append(p.rules, rl)
 	}
@@ -1664,9 +1891,9 @@ func init() {
 	})
 	register(Family{
 		Name: "control-laws", Prop: "C07",
-		Rule: "small parametric programs with a closed-form expected trace computed in Go: continue on odd i prints the evens (for: post-expression runs; while: increment first), break leaves only the innermost loop, dangling else, return leaves only the function, for-in visits every element once in order (arrays with index, objects with sorted keys, strings by runes with byte offsets), next / exit",
+		Rule: "small parametric programs with a closed-form expected trace computed in Go: continue on odd i prints the evens (for: post-expression runs; while: increment first), break leaves only the innermost loop, dangling else, return leaves only the function, for-in visits every element once in order (arrays with index, objects with sorted keys, strings by runes with byte offsets), next / exit; next / exit reached while a PATTERN is evaluated (a called function, a match expression with block bodies, one inside the other, under !, &&, ||, ==, as a match subject) with 0-1 rules before and 1-3 rules after it, with and without patterns, a second jumping pattern further down: next abandons every remaining rule of the record, exit ends the run without END",
 		Gen: func(r *rand.Rand, tier string, emit func(Case)) {
-			n := tierN(tier, 600, 6000)
+			n := tierN(tier, 900, 9000)
 			for i := 0; i < n; i++ {
 				c07Law(r, emit)
 			}
@@ -1885,7 +2112,10 @@ func c07Law(r *rand.Rand, emit func(Case)) {
 	n, m := r.Intn(7), r.Intn(5)
 	var prog, doc string
 	var want strings.Builder
-	switch r.Intn(9) {
+	switch r.Intn(13) {
+	case 9, 10, 11, 12:
+		c07LawPatternJump(r, emit)
+		return
 	case 0: // for + continue on odd
 		doc = fmt.Sprintf(`{"n":%d}`, n)
 		prog = "{\n  for (i = 0; i < $.n; i++) {\n    if (i % 2 == 1) continue\n    print i\n  }\n  print \"after\", i\n}\n"
@@ -2003,5 +2233,129 @@ func c07Law(r *rand.Rand, emit func(Case)) {
 	}
 	emit(Case{Req: RunReq(prog, nil, []File{{Name: "in.json", Data: []byte(doc)}}, false), Fields: []string{"class", "out"},
 		Meta: metaProg(prog, "input", doc), Oracle: c07OutOracle(want.String()),
+		NonTrivial: func(i Resp) bool { return i["class"] == "ok" }})
+}
+
+// c07LawPatternJump: next / exit reached WHILE A PATTERN IS EVALUATED (a function the
+// pattern calls, a match expression with a block body, both nested, under !, && and ||)
+// abandons ALL remaining rules of the record (next) or ends the run (exit); 0-1 rules
+// before and 1-3 rules after the pattern rule, with and without patterns of their own.
+func c07LawPatternJump(r *rand.Rand, emit func(Case)) {
+	n := 3 + r.Intn(5)
+	k, x, par := r.Intn(n), r.Intn(n+2), r.Intn(2) // record k: next; record x: exit (k wins; x may lie outside); others match when v % 2 == par
+	say := chance(r, 0.5)                          // the jump is announced by a print just before it
+	sayNext, sayExit := "", ""
+	if say {
+		sayNext, sayExit = "print \"skip\", v\n ", "print \"stop\", v\n "
+	}
+	g := fmt.Sprintf("function g(v) { if (v == %d) { %snext }\n if (v == %d) { %sexit }\n return v %% 2 == %d }\n", k, sayNext, x, sayExit, par)
+	mexpr := func(subject string) string {
+		a, b := "next", "exit"
+		if say {
+			a, b = "print \"skip\", "+subject+"\n next", "print \"stop\", "+subject+"\n exit"
+		}
+		if k == x {
+			return fmt.Sprintf("match (%s) { %d => { %s }\n q => q %% 2 == %d }", subject, k, a, par)
+		}
+		return fmt.Sprintf("match (%s) { %d => { %s }\n %d => { %s }\n q => q %% 2 == %d }", subject, k, a, x, b, par)
+	}
+	lim := r.Intn(n)
+	type form struct {
+		funcs, pat string
+		// reached: is the jumping part evaluated for v; neg: the truth value is negated
+		reached func(v int) bool
+		neg     bool
+		other   func(v int) bool // truth value when the jumping part is not reached
+	}
+	all := func(int) bool { return true }
+	forms := []form{
+		{g, "g($)", all, false, nil},
+		{"", mexpr("$"), all, false, nil},
+		{g + "function h(v) { return match (v) { 99 => 0, w => g(w) } }\n", "h($)", all, false, nil},
+		{"function m(v) { return " + strings.ReplaceAll(mexpr("v"), "\n", "\n ") + " }\n", "m($)", all, false, nil},
+		{g, "!g($)", all, true, nil},
+		{g, fmt.Sprintf("$ >= %d && g($)", lim), func(v int) bool { return v >= lim }, false, func(int) bool { return false }},
+		{g, fmt.Sprintf("$ < %d || g($)", lim), func(v int) bool { return !(v < lim) }, false, func(int) bool { return true }},
+		{g, "g($) == true", all, false, nil},
+		{g, "match (g($)) { true => 1, f => 0 }", all, false, nil},
+	}
+	f := forms[r.Intn(len(forms))]
+	var rules []string
+	type rl struct {
+		tag  string
+		cond func(v int) bool
+		jump bool
+	}
+	var sched []rl
+	pats := []struct {
+		src  string
+		cond func(v int) bool
+	}{{"", all}, {"", all}, {"true ", all}, {"$ % 2 == 0 ", func(v int) bool { return v%2 == 0 }}, {"$ > 1 ", func(v int) bool { return v > 1 }}, {"$ < 3 ", func(v int) bool { return v < 3 }}, {"0 ", func(int) bool { return false }}}
+	add := func(tag string) {
+		p := pick(r, pats)
+		rules = append(rules, fmt.Sprintf("%s{ print \"%s\", $ }", p.src, tag))
+		sched = append(sched, rl{tag: tag, cond: p.cond})
+	}
+	if chance(r, 0.5) {
+		add("before")
+	}
+	rules = append(rules, f.pat+" { print \"hit\", $ }")
+	sched = append(sched, rl{tag: "hit", jump: true})
+	for i, na := 0, 1+r.Intn(3); i < na; i++ {
+		add(fmt.Sprintf("after%d", i+1))
+	}
+	if chance(r, 0.3) {
+		// a second jumping pattern further down: reached only for records the first one let through
+		rules = append(rules, f.pat+" { print \"hit2\", $ }")
+		sched = append(sched, rl{tag: "hit2", jump: true})
+		add("last")
+	}
+	rules = append(rules, "END { print \"end\" }")
+	prog := f.funcs + strings.Join(rules, "\n") + "\n"
+	var recs []string
+	for i := 0; i < n; i++ {
+		recs = append(recs, fmt.Sprint(i))
+	}
+	doc := "[" + strings.Join(recs, ",") + "]"
+	var want strings.Builder
+	done := false
+records:
+	for v := 0; v < n; v++ {
+		for _, ru := range sched {
+			if !ru.jump {
+				if ru.cond(v) {
+					fmt.Fprintf(&want, "%s %d\n", ru.tag, v)
+				}
+				continue
+			}
+			if !f.reached(v) {
+				if f.other(v) {
+					fmt.Fprintf(&want, "%s %d\n", ru.tag, v)
+				}
+				continue
+			}
+			if v == k {
+				if say {
+					fmt.Fprintf(&want, "skip %d\n", v)
+				}
+				continue records // every remaining rule is abandoned for this record
+			}
+			if v == x {
+				if say {
+					fmt.Fprintf(&want, "stop %d\n", v)
+				}
+				done = true
+				break records
+			}
+			if (v%2 == par) != f.neg {
+				fmt.Fprintf(&want, "%s %d\n", ru.tag, v)
+			}
+		}
+	}
+	if !done {
+		want.WriteString("end\n")
+	}
+	emit(Case{Req: RunReq(prog, nil, []File{{Name: "in.json", Data: []byte(doc)}}, false), Fields: []string{"class", "out"},
+		Meta: metaProg(prog, "input", doc, "law", "next/exit executed while a pattern is evaluated"), Oracle: c07OutOracle(want.String()),
 		NonTrivial: func(i Resp) bool { return i["class"] == "ok" }})
 }
